@@ -111,13 +111,20 @@ def handle(c):
            'rhs_stats': {}}
     res = [None, None, None, None, None]
 
+    failures = []
+
+    def known_class(cfg):
+        """classes recorded in known_findings.json (suppressed only by their exact signature)"""
+        if cfg.get('approx') and cfg.get('jac') is not None and str(cfg.get('lin')) in ('direct', 'krylov'):
+            # an approx_totals sub-group below an ASSEMBLED jacobian of an ancestor
+            return 'approx-group-under-assembled-jacobian'
+        return None
+
     def fail(cfg, what):
-        if out['ok']:
-            out['ok'] = False
-            out['msg'] = '%s | cfg=%s' % (what, cfg)
-            out['sig'] = 'totals:%s:%s:%s%s' % (cfg.get('lin'), cfg.get('mode'), cfg.get('jac'),
-                                                ':rhs_checking' if cfg.get('rhs') else '')
-            out['cfg'] = cfg
+        sig = known_class(cfg) or 'totals:%s:%s:%s%s%s' % (
+            cfg.get('lin'), cfg.get('mode'), cfg.get('jac'), ':rhs_checking' if cfg.get('rhs') else '',
+            ':approx_totals' if cfg.get('approx') else '')
+        failures.append((known_class(cfg) is not None, sig, '%s | cfg=%s' % (what, cfg), cfg))
 
     probs = {}
     per_prob = {}
@@ -134,11 +141,16 @@ def handle(c):
         except AnalysisError as e:
             out['vacuous'] += 1          # a solver did not converge: the property's premise is false
             continue
+        except Exception as e:           # the model itself is valid (other configurations run it)
+            if cfg.get('primary'):
+                raise
+            fail(cfg, 'compute_totals / run_model raises %s: %s' % (type(e).__name__, str(e)[:160]))
+            continue
         out['ncfg'] += 1
         if isinstance(cfg.get('rhs'), dict) and cfg['rhs'].get('collect_stats'):
             per_prob[key] = ob.rhs_stats(p)      # cumulative per problem: keep the latest
         ds = bool(cfg.get('driver_scaling', False))
-        exact = sexact and cfg_exact(cfg)
+        exact = sexact and cfg_exact(cfg) and not cfg.get('approx')
         iterative = spec['coupled'] or not str(cfg.get('lin', '')).startswith('direct')
         slack = sg.solver_slack(ex) * scale_max[ds] if (iterative and not exact) else 0.0
         good, why = close(J, Jx[ds], exact, slack)
@@ -186,6 +198,13 @@ def handle(c):
                     p.run_model()
                 except AnalysisError:
                     pass
+    if failures:
+        # report a failure outside the known classes if there is one, else the known class
+        failures.sort(key=lambda f: f[0])
+        known, sig, msg, cfg = failures[0]
+        out['ok'] = False
+        out['sig'], out['msg'], out['cfg'] = sig, msg, cfg
+        out['n_failing_cfgs'] = len(failures)
     for st in per_prob.values():
         for kk, vv in st.items():
             out['rhs_stats'][kk] = out['rhs_stats'].get(kk, 0) + vv
